@@ -126,6 +126,7 @@ func init() {
 			e.flagSet(c.st, "signerCalled", True)
 			fails := c.nondet("signfn")
 			c.setFailed(fails)
+			e.flagSet(c.st, "signerFailed", Or(e.flagGet(c.st, "signerFailed"), And(c.pc, fails)))
 			sig := Fresh("sig", StringS)
 			signerErr := MkIface(e.ghostTag("liberr"), Ctor(AnyS, "a_int", Fresh("signerErr", IntS)))
 			e.globSet(c.st, "signerErr", IfaceS, Ite(fails, signerErr, e.globGet(c.st, "signerErr", IfaceS)))
@@ -223,4 +224,25 @@ func (e *Engine) conditionalKeys(c *CallCtx, has *Term) *Term {
 		e.setComp(c.st, "E:string", Store(e.comp(c.st, "E:string"), ElemLoc(base, IntT(int64(j))), el))
 	}
 	return MkSlice(base, IntT(0), count, count)
+}
+
+func init() {
+	extraModels = append(extraModels, func(e *Engine) {
+		// values that depend on the machine or the scheduler: reading them makes
+		// the output a function of more than configuration and sources (C07)
+		machine := func(c *CallCtx) *Term {
+			e.flagSet(c.st, "envRead", Or(e.flagGet(c.st, "envRead"), c.pc))
+			return Fresh("machine", IntS)
+		}
+		e.models["runtime.GOMAXPROCS"] = machine
+		e.models["runtime.NumCPU"] = machine
+		e.models["runtime.NumGoroutine"] = machine
+		e.models["os.Getpid"] = machine
+		e.models["(*github.com/klauspost/pgzip.Writer).SetConcurrency"] = func(c *CallCtx) *Term {
+			// output bytes depend on the block size: recorded so that a
+			// machine-dependent block size is visible
+			e.ghostSet(c.st, "zblocksize", IntS, c.args[0], c.args[1])
+			return NilIface
+		}
+	})
 }
